@@ -137,12 +137,47 @@ def check(run):
         if a != b:
             run.violation("page %d unreadable, %s: model and implementation differ" % (pgno, cmd[:50]),
                           {"kind": "impl-vs-model", "broken": "correspondence under faults", "db": db.path, "command": cmd, "fail_page": pgno, "impl": (a or [])[-3:], "model": (b or [])[-3:]})
-    for r in (res, res3):
+    # phase 4: pages that read as zeroes without any error from the pager (a lost write, a hole): the structure that
+    # contains them is corrupt - a zeroed b-tree page has no valid type, a zeroed overflow page ends its chain early.
+    # The extracted model decides what must happen (an error unless the page is the last of a chain, whose content is
+    # then zeroes); the implementation must do the same: never success with made-up, missing or replaced rows.
+    lines, meta4 = [], {}
+    dist["zeroed_page_cases"] = 0
+    for i, db in enumerate(dbs):
+        lines.append(("open%d" % i, "db %s" % db.path))
+        npages = len(db.data) // db.page_size
+        ov = sqlfmt.overflow_pages(db.data, db.page_size)
+        pages = sorted(set([p for p in ([2, 3, npages] + ov[:(8 if quick else 60)] + [rng.randrange(2, npages + 1) for _ in range(6 if quick else 40)]) if 2 <= p <= npages]))
+        cmds = [c for (j, oid), c in oplist.items() if j == i]
+        for pgno in pages:
+            lines.append(("%d/zero%d" % (i, pgno), "zero %d" % pgno))
+            for n, cmd in enumerate(rng.sample(cmds, min(len(cmds), 6 if quick else 15))):
+                cid = "%d/z%d/%d" % (i, pgno, n)
+                lines.append((cid, cmd))
+                meta4[cid] = (db, cmd, pgno)
+        lines.append(("%d/zeronone" % i, "zero -"))
+    res4, impl4, model4 = ops.run_cmds("c12-zero", lines, timeout=2400)
+    for cid, (db, cmd, pgno) in meta4.items():
+        run.count()
+        dist["zeroed_page_cases"] += 1
+        norm = lambda ls: None if ls is None else [("end err" if l.startswith("end err") else "err" if l.startswith("err ") else l) for l in ls]
+        a, b = norm(impl4.get(cid)), norm(model4.get(cid))
+        if a != b:
+            aerr = any(l in ("end err", "err") for l in (a or []))
+            berr = any(l in ("end err", "err") for l in (b or []))
+            if berr and not aerr:
+                run.violation("page %d reads as zeroes, %s: success reported with %d rows although the structure is corrupt (the model reports an error)" % (pgno, cmd[:50], len(rows_of(impl4.get(cid) or []))),
+                              {"kind": "corruption-swallowed", "db": db.path, "command": cmd, "zero_page": pgno, "impl": (a or [])[-3:], "model": (b or [])[-3:]})
+            else:
+                run.violation("page %d reads as zeroes, %s: model and implementation differ" % (pgno, cmd[:50]),
+                              {"kind": "impl-vs-model", "no_failing_input_found": True, "broken": "correspondence under corruption", "db": db.path, "command": cmd, "zero_page": pgno, "impl": (a or [])[-3:], "model": (b or [])[-3:]})
+        run.nontrivial(cid)
+    for r in (res, res3, res4):
         if r["impl"][0] != 0:
             run.violation("implrun died rc=%s %s" % (r["impl"][0], r["impl"][2][-300:]), {"kind": "harness-crash", "stderr": r["impl"][2][-600:]})
-    if res3["model"][0] != 0:
+    if res3["model"][0] != 0 or res4["model"][0] != 0:
         run.violation("modelrun died", {"no_failing_input_found": True, "broken": "model execution", "stderr": res3["model"][2][-600:]})
-    run.cov["traces_validated_against_impl"] = len(meta) + len(meta3)
+    run.cov["traces_validated_against_impl"] = len(meta) + len(meta3) + len(meta4)
     run.cov["rule"] = ("every operation (Table.Scan, Index.Scan, ScanMin, ScanEq, Table.Rowid, Select, SelectRowid, PKSelect, IndexedSelect, IndexedSelectEq) on every tree of a "
                        "SQLite-written corpus incl. overflowing index keys: the k-th physical page read of the call fails, for every k up to the fault-free read count (sampled above 40), "
                        "as an I/O error and as a short read; verdict = the property itself: an error is returned, the rows delivered are a prefix of the fault-free rows, the lock is "
